@@ -176,6 +176,22 @@ def regenerate(repo, outdir):
         out.append(f"def {lname} : Stmt :=\n  {lean_stmt(parse_stmt(consts[n]))}")
     out += ["", "end Askar.Sql.Generated", ""]
     write_if_changed(os.path.join(outdir, "Stmts.lean"), "\n".join(out))
+    # --- flags: which variant of a defect site the CURRENT source has (the models' `current` configurations read these,
+    # so that model and code move together when a repair lands or is reverted; the correspondence run checks the rest)
+    def has(rel, pattern):
+        return re.search(pattern, read(repo, rel), flags=re.S) is not None
+    ec_files = ["askar-crypto/src/alg/p256.rs", "askar-crypto/src/alg/p384.rs", "askar-crypto/src/alg/k256.rs"]
+    flags = {
+        # D4: JwkMapVisitor consumes the value of an unknown member
+        "jwkConsumesUnknown": has("askar-crypto/src/jwk/parts.rs", r"_\s*=>\s*\{[^}]*next_value::<\s*IgnoredAny\s*>"),
+        # D3: explicit length check in front of the GenericArray conversion, in all three EC files
+        "ecSecretLenCheck": all(has(f, r"fn from_secret_bytes\(key: &\[u8\]\)[^}]*key\.len\(\)\s*!=\s*SECRET_KEY_LENGTH") for f in ec_files),
+    }
+    fl = ["/- GENERATED by tools/extract.py from /repo on every run — do not edit. -/", "namespace Askar.Generated.Flags", ""]
+    for k, v in flags.items():
+        fl.append(f"def {k} : Bool := {'true' if v else 'false'}")
+    fl += ["", "end Askar.Generated.Flags", ""]
+    write_if_changed(os.path.join(outdir, "Flags.lean"), "\n".join(fl))
     return env
 
 
